@@ -456,9 +456,41 @@ class Interp:
         return self.world.lib.make_set(self, items)
 
     def e_Dict(self, node, scope):
+        if any(k is None for k in node.keys):
+            return self._dict_display_with_unpacking(node, scope)
         keys = [self.eval(k, scope) for k in node.keys]
         vals = [self.eval(v, scope) for v in node.values]
         return self.world.lib.make_dict(self, keys, vals)
+
+    def _dict_display_with_unpacking(self, node, scope):
+        '''{k: v, **m, ...}: entries are applied from left to right, a later entry replaces an earlier one with the same key'''
+        from .values import map_mk, map_dom, map_val
+        parts = [(None if k is None else self.eval(k, scope), self.eval(v, scope)) for k, v in zip(node.keys, node.values)]
+        maps = [v for k, v in parts if k is None]
+        if all(isinstance(m, dict) for m in maps):
+            out = {}
+            for k, v in parts:
+                if k is None:
+                    out.update(v)
+                else:
+                    out[k] = v
+            return out
+        typ = next((m.typ for m in maps if isinstance(m, SV) and m.typ.kind == 'Map'), None)
+        if typ is None or not all(isinstance(m, SV) and m.typ == typ for m in maps):
+            raise Undecided('dictionary display unpacking values of different kinds')
+        kt, vt = typ.args
+        cur = self.world.lib.empty_of(self, typ)
+        for k, v in parts:
+            if k is None:
+                q = z3.Const(self.path.name('k!unpack'), zsort(kt))
+                dom = z3.Lambda([q], z3.Or(map_dom(cur)[q], map_dom(v)[q]))
+                val = z3.Lambda([q], z3.If(map_dom(v)[q], map_val(v)[q], map_val(cur)[q]))
+                cur = map_mk(typ, dom, val)
+            else:
+                kk = coerce(k if isinstance(k, SV) else lift(k, kt), kt)
+                vv = coerce(v if isinstance(v, SV) else lift(v, vt), vt)
+                cur = map_mk(typ, z3.Store(map_dom(cur), kk.t, True), z3.Store(map_val(cur), kk.t, vv.t))
+        return cur
 
     def e_JoinedStr(self, node, scope):
         return self.world.lib.fstring(self, node, scope)
